@@ -1174,7 +1174,7 @@ class Unit:
 
     # ------------------------------------------------------------------
     def do_fn(self, spec, block, org):
-        m = re.match(r"(\S+)\s*::\s*(.*?)\s*::\s*(\w+)\s*(.*)$", spec)
+        m = re.match(r"(\S+)\s+::\s+(.*?)\s+::\s+(\w+)\s*(.*)$", spec)      # separators are ` :: ` (a path `a::b` may occur inside the context)
         if not m:
             raise ExtractError("bad //@fn " + spec)
         rel, ctx, name, rest = m.group(1), m.group(2), m.group(3), m.group(4)
